@@ -50,7 +50,15 @@ type suScenario struct {
 	Whys    []string
 }
 
-func suTag(v int) string { return fmt.Sprintf("v%d.%d.%d", v/10000, v/100%100, v%100) }
+// suTag: version code -> tag (see V / VPre in MC_SelfUpdate: last digit 9 = release, 1 = pre-release rc.1)
+func suTag(v int) string {
+	b := v / 10
+	t := fmt.Sprintf("v%d.%d.%d", b/10000, b/100%100, b%100)
+	if v%10 != 9 {
+		t += "-rc.1"
+	}
+	return t
+}
 
 func suPayload(v int) []byte {
 	return []byte(fmt.Sprintf("#!/bin/sh\necho crs-toolchain %s\n", suTag(v)))
@@ -224,7 +232,7 @@ func checkC20(c *Ctx) error {
 	c.Cov["version_lookups_replayed"] = atomic.LoadInt64(&suVersionRuns)
 	c.Cov["version_lookups_that_reported_a_release"] = atomic.LoadInt64(&suVersionReports)
 	c.Cov["exhaustive"] = keepMod == 1
-	c.Cov["rule"] = fmt.Sprintf("TLC explores every scenario (catalogue of 0..%s releases from a pool of 22 release shapes, versions v0.9.0 .. v3.0.0 incl. v2.0.5/v2.0.12/v2.0.13/v2.10.0 x running version {v1.0.0, v2.0.12, development build} x 8 fault positions x {self-update, version (release look-up outside CI)}) through the step machine List/Select/Compare/FetchAsset/FetchSums/Verify/Replace and checks Integrity on every state; 1/%d of the scenarios are replayed: the unmodified binary runs against a scripted fake GitHub (CONNECT proxy + TLS with an ad-hoc CA) and its outcome (executable bytes, exit status) must be one the model allows; non-trivial = catalogue not empty and (fault, bad checksum or bad asset)", maxRel, keepMod)
+	c.Cov["rule"] = fmt.Sprintf("TLC explores every scenario (catalogue of 0..%s releases from a pool of 22 release shapes, versions v0.9.0 .. v3.0.0 incl. v2.0.5/v2.0.12/v2.0.13/v2.10.0 x running version {v1.0.0, v2.0.12, pre-release build v2.1.0-rc.1, development build} x 8 fault positions x {self-update, version (release look-up outside CI)}) through the step machine List/Select/Compare/FetchAsset/FetchSums/Verify/Replace and checks Integrity on every state; 1/%d of the scenarios are replayed: the unmodified binary runs against a scripted fake GitHub (CONNECT proxy + TLS with an ad-hoc CA) and its outcome (executable bytes, exit status) must be one the model allows; non-trivial = catalogue not empty and (fault, bad checksum or bad asset)", maxRel, keepMod)
 	c.Assumptions = append(c.Assumptions, "the fake release service speaks the subset of the GitHub API that go-selfupdate v1.4.1 uses (release list, browser download URLs, asset API)")
 	c.Summary = fmt.Sprintf("states=%d scenarios=%d replayed=%d", st.Distinct, len(scen), len(keys))
 	return nil
@@ -273,7 +281,7 @@ func suJudgeVersion(c *Ctx, sc *suScenario, res CLIResult, exeSame bool, srv *Fg
 		fmt.Sscan(m[1], &a)
 		fmt.Sscan(m[2], &b)
 		fmt.Sscan(m[3], &p)
-		latest = a*10000 + b*100 + p
+		latest = (a*10000+b*100+p)*10 + 9
 	}
 	for _, a := range sc.Allowed {
 		if a.Latest == latest {
